@@ -177,4 +177,43 @@ def dupOutcome (A : Abs) (g : Graph Name) (kernel suffix msuffix : Name) : Clone
   | c :: _ =>
     cloneItem (A.items.map (fun it => it.name) ++ A.modules.map (fun m => m.1)) (scopeName c) (localName c) suffix msuffix
 
+
+/-! ## `SchedulerConfig.create_frontend_args`: per-file frontend options keyed by (patterns of) paths -/
+
+/-- `pattern = key.lower() if key[0] == '/' else f'*{key}'.lower()` (keys are non-empty) -/
+def faPattern (key : Name) : Name := if key.head? = some '/' then lower key else lower ('*' :: key)
+
+/-- `fnmatch.fnmatch(str(path).lower(), pattern)` -/
+def faMatch (path key : Name) : Bool := glob (faPattern key) (lower path)
+
+/-- the options of the first entry whose key matches (`return` inside the loop), `none` = the defaults -/
+def faLookup {α : Type} (path : Name) : List (Name × α) → Option α
+  | [] => none
+  | (k, v) :: rest => if faMatch path k then some v else faLookup path rest
+
+/-- a call statement, possibly inside `#ifdef D` / `#ifndef D` … `#endif` -/
+inductive GCall where
+  | plain (callee : Name)
+  | ifdef (d : Name) (callee : Name)
+  | ifndef (d : Name) (callee : Name)
+
+/-- the calls the frontend sees: without a matching entry the file is not preprocessed and every call is seen;
+with `preprocess=True, defines=ds` the C preprocessor decides -/
+def activeCalls (opts : Option (List Name)) (cs : List GCall) : List Name :=
+  cs.filterMap (fun c =>
+    match c, opts with
+    | .plain n, _ => some n
+    | .ifdef _ n, none => some n
+    | .ifndef _ n, none => some n
+    | .ifdef d n, some ds => if ds.contains d then some n else none
+    | .ifndef d n, some ds => if ds.contains d then none else some n)
+
+/-- project of free routines, one per file, as the item factory sees it under the given `frontend_args` -/
+def faAbs (dir : Name) (routines : List (Name × Name × List GCall)) (entries : List (Name × List Name)) : Abs :=
+  -- routine and callee names pass the factory's lower-casing points
+  { free := routines.map (fun r => lower r.1), modules := [],
+    items := routines.map (fun r =>
+      { name := '#' :: lower r.1, kind := "proc".toList, file := lower r.2.1,
+        deps := (activeCalls (faLookup (dir ++ '/' :: r.2.1) entries) r.2.2).map (fun n => DepNode.one ('#' :: lower n)) }) }
+
 end LokiModel.C23
